@@ -527,6 +527,8 @@ func c10Forced() []*c10Scenario {
 		opH("wait_stopped", 0), opH("wait_stopped", 1), opH("wait_stopped", 2)})
 	add("cancel-held-handleclose", []c10Op{opAdd(0, true), op("run"), op("wait_running"), op("cancel"), op("wait_run"), opH("wait_stopped", 0)},
 		c10Park{Point: "router.life.hc.ctx", Nth: 1, Until: "api.mark.never", Timeout: 100})
+	// context cancelled on a router that has no handlers
+	add("cancel-empty-router", []c10Op{op("run"), op("wait_running"), op("cancel"), op("wait_run")})
 	// second Run
 	add("second-run", []c10Op{opAdd(-1, true), op("run"), op("wait_running"), op("run2"), opH("probe", 0), op("run2"), opH("stop", 0), opH("wait_stopped", 0), op("wait_run"), op("run2")})
 	// RunHandlers / Stop / Stopped before Run
